@@ -5,6 +5,7 @@ import FsVerif.Model.BufStore
 import FsVerif.Model.PrioReq
 import FsVerif.Model.FleetStore
 import FsVerif.Model.SlotBelt
+import FsVerif.Model.CBelt
 import FsVerif.Model.Node.Source
 import FsVerif.Model.Node.Machine
 import FsVerif.Model.Node.Pack
